@@ -13,7 +13,7 @@ KINDS = ('int', 'file')  # row kinds of the symbolic pre-state: inline integer /
 
 
 def fname(i):
-    return 'f%d/sub/file%d.val' % (i, i)
+    return 'f%d/5b/file%d.val' % (i, i)  # a directory name Disk.filename can produce too (world.urandom_prefix)
 
 
 def content(i):
@@ -22,7 +22,7 @@ def content(i):
 
 def is_prefile(rel):
     import re
-    return re.fullmatch(r'f\d+/sub/file\d+\.val', rel) is not None
+    return re.fullmatch(r'f\d+/5b/file\d+\.val', rel) is not None
 
 
 class _PoolKey:
